@@ -14,6 +14,7 @@ type Lexer struct {
 	ch           byte // current char under examination
 	inside       bool
 	curLine      int
+	inComment    bool // between <%# and its %>: quotes and # are plain characters there
 }
 
 // New Lexer from the input string
@@ -58,6 +59,14 @@ func (l *Lexer) nextInsideToken() token.Token {
 	// every token is stamped with the line on which it starts (reading ahead
 	// over a following newline must not move it to the next line)
 	startLine := l.curLine
+
+	if l.inComment && (l.ch == '"' || l.ch == '`' || l.ch == '#' || l.ch == '<') {
+		// inside a comment tag a quote, # or < must not swallow the closing %> and what follows it
+		tok := l.newToken(token.ILLEGAL)
+		l.readChar()
+		tok.LineNumber = startLine
+		return tok
+	}
 
 	switch l.ch {
 	case '=':
@@ -117,6 +126,7 @@ func (l *Lexer) nextInsideToken() token.Token {
 	case '%':
 		if l.peekChar() == '>' {
 			l.inside = false
+			l.inComment = false
 			l.readChar()
 			tok = token.Token{Type: token.E_END, Literal: "%>", LineNumber: l.curLine}
 			break
@@ -129,6 +139,7 @@ func (l *Lexer) nextInsideToken() token.Token {
 			switch l.peekChar() {
 			case '#':
 				l.readChar()
+				l.inComment = true
 				tok = token.Token{Type: token.C_START, Literal: "<%#", LineNumber: l.curLine}
 			case '=':
 				l.readChar()
